@@ -155,6 +155,10 @@ impl Slatepack {
 
 		to_encrypt.append(&mut self.payload);
 
+		// The metadata now travels inside the encrypted payload only: the JSON form
+		// and Display of this struct must not carry it in the clear
+		self.encrypted_meta = default_enc_metadata();
+
 		let rec_keys: Result<Vec<_>, _> = recipients
 			.into_iter()
 			.map(|addr| {
